@@ -150,4 +150,31 @@ example : validate witnessCfg witness = .deny := by decide
 example : validateOld witnessCfg "data://monitoring.hail.is/,x".toList = .accept := by decide
 example : validate witnessCfg "data://monitoring.hail.is/,x".toList = .deny := by decide
 
+/-! ## the flow: every redirect to the `next` string happens after a successful validation of that very string -/
+
+/-- `/login`, `/signup` never redirect to `next` (they go to the identity provider or answer 400). -/
+theorem entry_never_redirects_to_next (ok : Bool) : entryResp ok ≠ .redirect .next := by
+  cases ok <;> simp [entryResp]
+
+/-- `/oauth2callback` redirects to the session's `next` only if that string passed `validate_next_page_url` in this very request —
+whichever way it got into the session, for the login AND the signup caller. -/
+theorem callback_redirects_to_valid_next (hasFlow : Bool) (c : Caller) (ok : Bool) (a : Account) (so : Bool)
+    (h : callbackResp hasFlow c ok a so = .redirect .next) : ok = true := by
+  cases hasFlow <;> cases ok <;> cases c <;> cases a <;> cases so <;> simp [callbackResp] at h ⊢
+
+theorem creating_redirects_to_valid_next (pending ok : Bool) (a : Account)
+    (h : creatingResp pending ok a = .redirect .next) : ok = true := by
+  cases pending <;> cases ok <;> cases a <;> simp [creatingResp] at h ⊢
+
+/-- …hence the browser that follows the post-login redirect lands on a Hail host. -/
+theorem flow_redirect_lands_on_hail (cfg : DeployCfg) (base next : Str) (hcfg : plainCfg cfg = true) (hasFlow : Bool) (c : Caller)
+    (a : Account) (so : Bool) (h : callbackResp hasFlow c (validate cfg next == .accept) a so = .redirect .next) :
+    LandsOnHail cfg base next := by
+  have := callback_redirects_to_valid_next _ _ _ _ _ h
+  exact accepted_lands_on_hail cfg base next hcfg (by simpa using this)
+
+-- a signup caller with a planted foreign `next` and an already active account: refused (400), not redirected
+example : callbackResp true .signup (validate witnessCfg "https://evil.com/".toList == .accept) .active true = .badRequest := by decide
+example : callbackResp true .signup (validate witnessCfg "https://batch.hail.is/batches".toList == .accept) .active true = .redirect .next := by decide
+
 end HailVerif.C29
